@@ -25,7 +25,8 @@ def cases(tier, seed):
         lens = gen.chrom_lens(table)
         if which == "bins":
             rows = [[t[0], t[1], t[2], w[k]] for k, t in enumerate(table)]
-            allcols = ["chrom", "start", "end", "w"]
+            wname = ["w", "chrom_x", "mychrom", "weight2", "chromosome"][(h // 3) % 5]     # names that CONTAIN "chrom", too
+            allcols = ["chrom", "start", "end", wname]
         elif which == "pixels":
             rows = px
             allcols = ["bin1_id", "bin2_id", "count"]
@@ -50,8 +51,25 @@ def cases(tier, seed):
             for q in qs:
                 q["single"] = False
         yield "sel.table", {"table": table, "mode": mode, "px": px, "w": w, "which": which, "rows": rows, "allcols": allcols, "qs": qs,
-                            "joined": joined,
+                            "joined": joined, **({"wname": wname} if which == "bins" else {}),
                             "encoding": "enum" if h % 4 else "int", **({"at": ["/resolutions/5", "/a/b"][h % 2]} if h % 5 == 2 else {})}
+    # (1b) indexes given as NumPy scalars of a narrow dtype, at the top of its range (tables with more than 127 / 255 rows)
+    for h, nb in enumerate([16, 23] if tier == "quick" else [16, 17, 23, 24]):
+        table = gen.binnify([nb], 1)
+        px = [[i, j, 1 + (i + j) % 5] for i in range(nb) for j in range(i, nb)]
+        nrows = len(px)
+        keys = [{"kind": "scalar", "a": [127], "b": [], "np": "int8"}, {"kind": "scalar", "a": [-1], "b": [], "np": "int8"},
+                {"kind": "scalar", "a": [126], "b": [], "np": "int8"}, {"kind": "scalar", "a": [-128], "b": [], "np": "int8"},
+                {"kind": "slice", "a": [-5], "b": [], "np": "int8"}, {"kind": "slice", "a": [120], "b": [127], "np": "int8"},
+                {"kind": "slice", "a": [], "b": [-3], "np": "int16"}, {"kind": "scalar", "a": [100], "b": [], "np": "uint8"},
+                {"kind": "scalar", "a": [nrows - 1], "b": [], "np": "int64"}, {"kind": "slice", "a": [3], "b": [-120], "np": "int8"}]
+        if nrows > 255:
+            keys += [{"kind": "scalar", "a": [255], "b": [], "np": "uint8"}, {"kind": "slice", "a": [250], "b": [255], "np": "uint8"},
+                     {"kind": "scalar", "a": [254], "b": [], "np": "uint8"}]
+        allcols = ["bin1_id", "bin2_id", "count"]
+        qs = [{"s": s, "colidx": [1, 2, 3], "colnames": allcols, "single": False, "explicit": False} for s in keys]
+        yield "sel.table", {"table": table, "mode": "symm", "px": px, "w": [0] * nb, "which": "pixels", "rows": px, "allcols": allcols,
+                            "qs": qs, "joined": False, "encoding": "enum"}
     # (2) annotation
     for h in range(450 if tier == "quick" else 8000):
         table = tables[h % len(tables)]
